@@ -17,6 +17,7 @@ type merged struct {
 	sels      map[*ast.SelectorExpr]*types.Selection
 	constInit map[types.Object]ast.Expr
 	varInit   map[types.Object]ast.Expr
+	localInit map[types.Object]ast.Expr
 	declOf    map[types.Object]*ast.FuncDecl
 	pkgOfFile map[*ast.File]*packages.Package
 }
@@ -29,7 +30,8 @@ func (p *Program) m() *merged {
 		uses: map[*ast.Ident]types.Object{}, defs: map[*ast.Ident]types.Object{},
 		typs: map[ast.Expr]types.TypeAndValue{}, sels: map[*ast.SelectorExpr]*types.Selection{},
 		constInit: map[types.Object]ast.Expr{}, varInit: map[types.Object]ast.Expr{},
-		declOf: map[types.Object]*ast.FuncDecl{}, pkgOfFile: map[*ast.File]*packages.Package{},
+		localInit: map[types.Object]ast.Expr{},
+		declOf:    map[types.Object]*ast.FuncDecl{}, pkgOfFile: map[*ast.File]*packages.Package{},
 	}
 	for _, pk := range p.Pkgs {
 		if pk.TypesInfo == nil {
@@ -54,6 +56,9 @@ func (p *Program) m() *merged {
 				case *ast.FuncDecl:
 					if o := pk.TypesInfo.Defs[d.Name]; o != nil {
 						m.declOf[o] = d
+					}
+					if d.Body != nil {
+						collectLocalInits(pk, d.Body, m.localInit)
 					}
 				case *ast.GenDecl:
 					if d.Tok != token.CONST && d.Tok != token.VAR {
@@ -83,6 +88,75 @@ func (p *Program) m() *merged {
 	p.mg = m
 	return m
 }
+
+// collectLocalInits records, for every local variable of a function body that is defined once with an
+// initialiser (`x := e`, `var x = e`) and never assigned, incremented or address-taken afterwards, that
+// initialiser: such a local is a name for the expression.
+func collectLocalInits(pk *packages.Package, body *ast.BlockStmt, out map[types.Object]ast.Expr) {
+	cand := map[types.Object]ast.Expr{}
+	spoiled := map[types.Object]bool{}
+	spoil := func(e ast.Expr) {
+		if id, ok := ast.Unparen(e).(*ast.Ident); ok {
+			if o := pk.TypesInfo.Uses[id]; o != nil {
+				spoiled[o] = true
+			}
+		}
+	}
+	ast.Inspect(body, func(n ast.Node) bool {
+		switch x := n.(type) {
+		case *ast.AssignStmt:
+			for i, l := range x.Lhs {
+				id, ok := l.(*ast.Ident)
+				if !ok {
+					continue
+				}
+				if x.Tok == token.DEFINE {
+					if o := pk.TypesInfo.Defs[id]; o != nil {
+						if len(x.Rhs) == len(x.Lhs) {
+							cand[o] = x.Rhs[i]
+						} else {
+							spoiled[o] = true
+						}
+						continue
+					}
+				}
+				spoil(id) // plain assignment, or a redeclared name in a mixed :=
+			}
+		case *ast.ValueSpec:
+			for i, id := range x.Names {
+				if o := pk.TypesInfo.Defs[id]; o != nil {
+					if len(x.Values) == len(x.Names) {
+						cand[o] = x.Values[i]
+					} else {
+						spoiled[o] = true
+					}
+				}
+			}
+		case *ast.IncDecStmt:
+			spoil(x.X)
+		case *ast.UnaryExpr:
+			if x.Op == token.AND {
+				spoil(x.X)
+			}
+		case *ast.RangeStmt:
+			if x.Key != nil {
+				spoil(x.Key)
+			}
+			if x.Value != nil {
+				spoil(x.Value)
+			}
+		}
+		return true
+	})
+	for o, e := range cand {
+		if !spoiled[o] {
+			out[o] = e
+		}
+	}
+}
+
+// LocalInit returns the initialiser of a function-local variable that is defined once and never modified.
+func (p *Program) LocalInit(o types.Object) ast.Expr { return p.m().localInit[o] }
 
 // ObjectOf resolves an identifier (use or definition).
 func (p *Program) ObjectOf(id *ast.Ident) types.Object {
